@@ -192,7 +192,12 @@ def run_timing(params, obs):
     cfg_b = dict(keepalive_time=params['ka_b'], idle_time=params['idle_b'], segment_size_tx_initial=params.get('seg', 100))
     if params.get('mru_b'):
         cfg_b['segment_size_mru'] = params['mru_b']
+    if params.get('via_file'):
+        cfg_a['via_file'] = cfg_b['via_file'] = True
     run = PairRun(seed=params.get('seed', 0), policy='eager', cfg_a=cfg_a, cfg_b=cfg_b)
+    if params.get('latency_ms'):
+        # one-way delay: an acknowledgement or KEEPALIVE then arrives at an instant at which the receiver sends nothing itself
+        run.sim.deliver_latency_ns = params['latency_ms'] * MS
     rec = Recorder(run)
     run.start()
     run.sim.settle(20000)
@@ -398,6 +403,15 @@ def run_case(case):
             for side in ('A', 'B'):
                 traffic = [(deadline * 1000 + delta, side, 30), (2 * deadline * 1000 + delta, 'A' if side == 'B' else 'B', 250)]
                 note(run_timing(dict(base, traffic=traffic, duration_s=dur), obs), 'timing', dict(base, traffic=str(traffic)))
+        # the same with a one-way network delay: receptions no longer coincide with own transmissions
+        for latency in (1, 7):
+            obs['latency_runs'] = obs.get('latency_runs', 0) + 1
+            traffic = [(deadline * 500, 'A', 250), (deadline * 1000 + deadline * 300, 'B', 30)]
+            note(run_timing(dict(base, traffic=traffic, duration_s=dur, latency_ms=latency), obs), 'timing', dict(base, traffic=str(traffic), latency_ms=latency))
+        # configuration read from a document by the real Config.from_file(): the configured values must be the ones in force
+        obs['from_file_runs'] = obs.get('from_file_runs', 0) + 1
+        long_dur = min(max(dur, 2 * max(ka_a, ka_b) + 3), 200)
+        note(run_timing(dict(base, traffic=[], duration_s=long_dur, via_file=True), obs), 'timing', dict(base, traffic='none', via_file=True))
         if idle:
             # asymmetric idle times
             note(run_timing(dict(base, idle_b=0, traffic=[(idle * 1000 - 1, 'B', 5)], duration_s=dur), obs), 'timing',
